@@ -751,8 +751,7 @@ class Flux(Obligation):
             flux, fsc = total_energy_flux(i)
             j = None if i in (0, 5) else (0 if i < 3 else 5)
             fluxj = side(total_energy_flux(j)[0]) if j is not None else None
-            Re = Rew(cx, Rn)
-            oke = okr & Re.powers(cx, 'n%d' % i, flux, Fr, Er, *([fluxj] if j is not None else []))
+            Re, oke = Rn, okr
             if self.sn:
                 # transported Eddington factor: the flux is constant on each side of M = 1 by construction; equality of the
                 # two constants with the analytic upstream value needs f == 1/3 in both end states (a converged transport
